@@ -49,7 +49,7 @@ pub fn app_version(signer: bool, rng: &mut StdRng) -> AppVersion {
 
 fn viol(sum: &mut Summary, call: &str, kind: &str, case: &Value, why: String) {
     let signer = case["s"].as_u64().unwrap_or(0);
-    sum.violation("C11", json!({"class": {"call": call, "kind": kind, "signer": signer}, "case": case, "why": why}));
+    crate::util::violation(sum, "C11", json!({"class": {"call": call, "kind": kind, "signer": signer}, "case": case, "why": why}));
 }
 
 fn layout_case(sum: &mut Summary, case: &Value, rng: &mut StdRng) {
